@@ -8,6 +8,8 @@ import NA.Proofs.C20Banner
 import NA.Proofs.C20Status
 import NA.Proofs.C20Msg
 import NA.Proofs.C20Cycle
+import NA.Proofs.C20Post
+import NA.Proofs.C20Diff
 import NA.Gen.PanicSites
 /-!
 # C20 — malformed input ends in a diagnostic, never in a crash
@@ -662,7 +664,59 @@ theorem all_sites_partition :
     NA.Gen.PanicSites.allSites_theorem + NA.Gen.PanicSites.allSites_syntactic + NA.Gen.PanicSites.allSites_oracle +
       NA.Gen.PanicSites.allSites_unclassified = NA.Gen.PanicSites.allSiteKeys := by decide
 
+/-! ### checkReferences over the post-processed lookup map; diff engines -/
+
+instance (ds : List Descr) : Decidable (AclNoRef ds) := by unfold AclNoRef; infer_instance
+instance (ds : List Descr) : Decidable (IosSubNoRef ds) := by unfold IosSubNoRef; infer_instance
+
+theorem asa_aclNoRef : AclNoRef asaTable := by decide
+theorem ios_aclNoRef : AclNoRef iosTable := by decide
+theorem asa_iosSubNoRef : IosSubNoRef asaTable := by decide
+theorem ios_iosSubNoRef : IosSubNoRef iosTable := by decide
+
+/-- ONE composed statement (both device types): for ANY file content, the commands the parser returns,
+stored in the lookup map and post-processed (`postLookup`: ASA ACL, IOS ACL, aaa-server, the four
+`setTransRef` passes), are checked by `checkReferences` without an index out of range in `c.typ.ref[i]`. -/
+theorem no_panic_checkReferences_postprocessed (tb : Tables) (isRaw : Bool) (data : Str) :
+    (∀ cmds lk', parseConfig true asaTable isRaw data = .ok cmds →
+      postLookup tb (buildLookup asaTable cmds) = .ok lk' → NoPanic (checkReferences true asaTable lk' isRaw)) ∧
+    (∀ cmds lk', parseConfig true iosTable isRaw data = .ok cmds →
+      postLookup tb (buildLookup iosTable cmds) = .ok lk' → NoPanic (checkReferences true iosTable lk' isRaw)) :=
+  ⟨fun cmds lk' h1 h2 => checkReferences_postprocessed_noPanic asaTable asa_cleanTop asa_cleanSubsOf asa_refsDeclared
+      asa_maxRefs5 asa_aclNoRef asa_iosSubNoRef tb isRaw data cmds lk' h1 h2,
+   fun cmds lk' h1 h2 => checkReferences_postprocessed_noPanic iosTable ios_cleanTop ios_cleanSubsOf ios_refsDeclared
+      ios_maxRefs5 ios_aclNoRef ios_iosSubNoRef tb isRaw data cmds lk' h1 h2⟩
+
+/-- the statement is not vacuous: a file whose ACL line references an object-group is parsed, stored and
+post-processed, and the reference arrives in `c.ref`. -/
+theorem postprocessed_nonvacuous : ∃ cmds lk',
+    parseConfig true asaTable false (lit "access-list A extended permit ip object-group G any4\n") = .ok cmds ∧
+    postLookup noTables (buildLookup asaTable cmds) = .ok lk' ∧
+    lk'.any (fun g => g.2.any (fun c => c.ref == [lit "G"])) = true := by
+  refine ⟨_, _, rfl, rfl, ?_⟩
+  decide
+
+/-- the edit scripts: every range of a valid script (NA.Acl.cellsOf) gives slices inside both lists. -/
+theorem no_panic_diff_ranges (a b : List NA.Acl.Line) (rs : List NA.Acl.Range) (M : List NA.Acl.Cell)
+    (h : NA.Acl.cellsOf a b rs = some M) {α β : Type} (la : List α) (lb : List β)
+    (hla : la.length = a.length) (hlb : lb.length = b.length) :
+    ∀ r ∈ rs, NoPanic (Diff.goSlice "a[LowA:HighA]" la r.lowA r.highA) ∧
+      NoPanic (Diff.goSlice "b[LowB:HighB]" lb r.lowB r.highB) :=
+  Diff.script_slices_noPanic a b rs M h la lb hla hlb
+
+theorem no_panic_changes_bookkeeping (ch d ad : List Str) (cmd : Str) (hd : d ≠ []) (ha : ad ≠ []) :
+    NoPanic (Diff.moveIOS ch d ad) ∧ NoPanic (Diff.moveASA ch d ad) ∧ NoPanic (Diff.dropResequence ch cmd d) :=
+  ⟨Diff.moveIOS_noPanic ch d ad hd ha, Diff.moveASA_noPanic ch d ad hd ha, Diff.dropResequence_noPanic ch cmd d⟩
+
+/-- without "every append is non-empty" the bookkeeping does fail: the hypothesis is needed. -/
+theorem changes_bookkeeping_counterexample : (Diff.moveIOS [] [] []).isPanic = true := by rfl
+
 def obligations : List Lean.Name := [
+  ``asa_aclNoRef, ``ios_aclNoRef, ``asa_iosSubNoRef, ``ios_iosSubNoRef, ``no_panic_checkReferences_postprocessed,
+  ``postprocessed_nonvacuous, ``no_panic_diff_ranges, ``no_panic_changes_bookkeeping, ``changes_bookkeeping_counterexample,
+  ``Diff.cellsOf_rangesOK, ``Diff.sliceA_noPanic, ``Diff.sliceB_noPanic, ``Diff.sliceFromA_noPanic, ``Diff.indexFromA_noPanic,
+  ``Diff.indexLowB_noPanic, ``Diff.indexEqualB_noPanic, ``Diff.indexEqualB_off_noPanic, ``Diff.indexInA_noPanic,
+  ``Diff.panosMoveTo_noPanic,
   ``asa_cleanSubsOf, ``ios_cleanSubsOf, ``asa_refsDeclared, ``ios_refsDeclared, ``asa_maxRefs5, ``ios_maxRefs5,
   ``asa_aaaSub_hasRef, ``parser_result_topOK_asa, ``parser_result_topOK_ios, ``lookup_lists_nonempty,
   ``no_panic_aaaServer_derived, ``no_panic_checkReferences, ``no_panic_checkReferences_parsed_asa,
